@@ -112,6 +112,12 @@ class Cell:
 
 
 def fp_bits(model, f):
+    fv = model.eval(f, model_completion=True)
+    try:
+        if fv.isNaN():
+            return 0x7ff8000000000000      # fpToIEEEBV leaves the bit pattern of NaN unspecified
+    except AttributeError:
+        pass
     v = model.eval(z3.fpToIEEEBV(f), model_completion=True)
     return v.as_long()
 
@@ -167,7 +173,19 @@ class SymDoc:
             cell = Cell(self.uni, p, self.bounds, self.depth)
             ent = (present, cell)
             self.cells[key] = ent
+            if getattr(self, '_len', None) is not None:
+                self.uni.axioms.append(z3.Implies(present, self._len != 0))
         return ent
+
+    def length(self):
+        """Object::len(): the number of keys, of which the addressed ones are only some: an unknown count that is
+        non-zero when an addressed key is present (witnesses are padded with unaddressed keys up to it)"""
+        if getattr(self, '_len', None) is None:
+            self._len = z3.BitVec(self.path + '.nkeys', 64)
+            self.uni.axioms.append(z3.ULE(self._len, 4))
+            for present, _cell in self.cells.values():
+                self.uni.axioms.append(z3.Implies(present, self._len != 0))
+        return self._len
 
     def find_value(self, key):
         """Option<Value> as a SymEnum"""
@@ -209,6 +227,12 @@ class SymDoc:
         for key, (present, cell) in self.cells.items():
             if z3.is_true(model.eval(present, model_completion=True)):
                 out.append([list(key), cell.render(model)])
+        if getattr(self, '_len', None) is not None:
+            n = model.eval(self._len, model_completion=True).as_long()
+            i = 0
+            while len(out) < n:
+                out.append([list(b'~unaddressed%d' % i), None])
+                i += 1
         return {'$obj': out}
 
 
